@@ -464,6 +464,9 @@ func (p *Parent) runChild(self, id, tier string, seed int64, cases []int, wdir s
 	ef, _ := os.Create(errPath)
 	cmd.Stderr = ef
 	cmd.Stdout = ef
+	if os.Getenv("VERIF_TIMING") != "" {
+		cmd.Stderr = os.Stderr
+	}
 	cmd.Env = append(os.Environ(), "VERIF_CHILD=1")
 	wall := 4 * time.Hour
 	if v := os.Getenv("VERIF_WALL"); v != "" {
@@ -651,6 +654,7 @@ func (p *Parent) finish(start time.Time) int {
 		vs := bySig[sig]
 		nviol += len(vs)
 		if si >= 8 {
+			fmt.Printf("  (also) signature: %s (%d occurrence(s))\n", sig, len(vs))
 			continue
 		}
 		v := vs[0]
@@ -661,7 +665,11 @@ func (p *Parent) finish(start time.Time) int {
 		os.WriteFile(filepath.Join(dir, "replay.json"), rj, 0o644)
 		os.WriteFile(filepath.Join(dir, "detail.txt"), []byte(v.Detail), 0o644)
 		for name, content := range v.Files {
-			os.WriteFile(filepath.Join(dir, filepath.Base(name)), []byte(content), 0o644)
+			base := filepath.Base(name)
+			if strings.HasSuffix(base, ".go") || base == "go.mod" {
+				base += ".txt" // the replay directory lies inside the verif module: keep it free of Go sources
+			}
+			os.WriteFile(filepath.Join(dir, base), []byte(content), 0o644)
 		}
 		fmt.Printf("VIOLATION property=%s replay=%s\n", ck.ID, dir)
 		fmt.Printf("  signature: %s (%d occurrence(s))\n  %s\n", sig, len(vs), firstLines(v.Detail, 12))
@@ -684,6 +692,9 @@ func (p *Parent) finish(start time.Time) int {
 		}
 		if p.Counters["evaluations"] == 0 {
 			p.Inconclusive("no evaluations")
+		}
+		if len(p.Samples) == 0 {
+			p.Inconclusive("no sample case was recorded by the check")
 		}
 	}
 
